@@ -498,6 +498,66 @@ mod real {
             }
             out.insert("drop_by_construction".into(), json!(rows));
         }
+        // C15: after an orderly FULL close by the client (close(2), not a half-close) the
+        // complete requests it sent are still delivered, whatever the kernel says about the
+        // connection after the server's first answer drew a reset
+        {
+            let big = "b".repeat(2000);
+            let get = |u: &str| format!("GET {} HTTP/1.1\r\nHost: t\r\n\r\n", u).into_bytes();
+            let post = |u: &str, body: &str| format!("POST {} HTTP/1.1\r\nHost: t\r\nContent-Length: {}\r\n\r\n{}", u, body.len(), body).into_bytes();
+            let chunked = |u: &str| {
+                let mut v = format!("POST {} HTTP/1.1\r\nHost: t\r\nTransfer-Encoding: chunked\r\n\r\n", u).into_bytes();
+                for _ in 0..3 {
+                    v.extend_from_slice(format!("3e8\r\n{}\r\n", "c".repeat(1000)).as_bytes());
+                }
+                v.extend_from_slice(b"0\r\n\r\n");
+                v
+            };
+            let pipelines: Vec<(&str, Vec<u8>, Vec<&str>)> = vec![
+                ("get,get", [get("/1"), get("/2")].concat(), vec!["/1", "/2"]),
+                ("post2000,get", [post("/1", &big), get("/2")].concat(), vec!["/1", "/2"]),
+                ("chunked3000,get", [chunked("/1"), get("/2")].concat(), vec!["/1", "/2"]),
+                ("post2000,post2000,get", [post("/1", &big), post("/2", &big), get("/3")].concat(), vec!["/1", "/2", "/3"]),
+                ("get,post5,get", [get("/1"), post("/2", "hello"), get("/3")].concat(), vec!["/1", "/2", "/3"]),
+                ("expect-post2000,get", [format!("POST /1 HTTP/1.1\r\nHost: t\r\nExpect: 100-continue\r\nContent-Length: 2000\r\n\r\n{}", big).into_bytes(), get("/2")].concat(), vec!["/1", "/2"]),
+            ];
+            let mut rows = Vec::new();
+            let mut idx = 0;
+            for unix in [false, true] {
+                for read_body in [false, true] {
+                    for (name, bytes, want) in &pipelines {
+                        idx += 1;
+                        let path = std::env::temp_dir().join(format!("verif-realsock-{}-fullclose-{}.sock", std::process::id(), idx));
+                        let _ = std::fs::remove_file(&path);
+                        let server = if unix { Server::http_unix(&path).unwrap() } else { Server::http("127.0.0.1:0").unwrap() };
+                        if unix {
+                            let mut c = UnixStream::connect(&path).unwrap();
+                            let _ = c.write_all(bytes);
+                            drop(c);
+                        } else {
+                            let mut c = TcpStream::connect(server.server_addr().to_ip().unwrap()).unwrap();
+                            let _ = c.write_all(bytes);
+                            drop(c);
+                        }
+                        // the close has reached the server before anything is answered
+                        std::thread::sleep(Duration::from_millis(100));
+                        let mut delivered: Vec<String> = Vec::new();
+                        while let Ok(Some(mut rq)) = server.recv_timeout(Duration::from_millis(700)) {
+                            delivered.push(rq.url().to_string());
+                            if read_body {
+                                let mut sink = Vec::new();
+                                let _ = rq.as_reader().read_to_end(&mut sink);
+                            }
+                            let _ = rq.respond(Response::from_string("ok"));
+                        }
+                        drop(server);
+                        let _ = std::fs::remove_file(&path);
+                        rows.push(json!({"socket": if unix { "unix" } else { "tcp" }, "pipeline": name, "application_reads_bodies": read_body, "sent": want, "delivered": delivered}));
+                    }
+                }
+            }
+            out.insert("delivered_after_full_close".into(), json!(rows));
+        }
         {
             let path = std::env::temp_dir().join(format!("verif-realsock-{}-drop.sock", std::process::id()));
             let _ = std::fs::remove_file(&path);
